@@ -325,11 +325,14 @@ impl MessageStorage for MdkSqliteStorage {
     ) -> Result<Option<u64>, MessageError> {
         // instr() is a literal, case-sensitive substring test (LIKE is ASCII case-insensitive),
         // which is what the trait documents and what the in-memory backend does.
+        // When several messages match, the newest one in display order is chosen, as in the
+        // in-memory backend (without an ORDER BY the two backends picked different messages).
         self.with_connection(|conn| {
             let mut stmt = conn
                 .prepare(
                     "SELECT epoch FROM messages
                      WHERE mls_group_id = ? AND instr(tags, ?) > 0 AND epoch IS NOT NULL
+                     ORDER BY created_at DESC, processed_at DESC, id DESC
                      LIMIT 1",
                 )
                 .map_err(into_message_err)?;
